@@ -28,6 +28,13 @@ SceneOf(s) == [EmptyScene EXCEPT !.guid = s.guid, !.fin = TRUE,
                !.pcs = [i \in 1..Len(s.pcs) |-> [open |-> FALSE, guid |-> s.pcs[i].guid, proto |-> s.pcs[i].proto,
                                                  pts |-> s.pcs[i].pts, reals |-> <<>>, meta |-> <<>>]]]
 T_Scene == IsEv("s_scene") /\ sc' = SceneOf(E.scene) /\ UNCHANGED <<file, res>>
+\* Iterator::size_hint = (records - consumed, Some(records - consumed)) for both iterators
+T_RHints == /\ IsEv("r_hints") /\ ~Panicked
+            /\ ChkP(IsOk(E.res), {"C01", "C05"}, "iteration-for-size-hints-failed")
+            /\ IsOk(E.res) => \A i \in 1..Len(E.res.ok) :
+                  LET h == E.res.ok[i]
+                  IN ChkP(h[3] = Sub64(E.records, h[2]) /\ h[4] = SomeV(h[3]), {"C01", "C05"}, "size-hint-is-not-records-minus-consumed")
+            /\ res' = E.res /\ UNCHANGED <<sc, file>>
 T_RSimpleCount == /\ IsEv("r_simple_count") /\ ~Panicked
                   /\ ChkP(IsOk(E.res) /\ IsOk(E.res) => E.res.ok = NatToL64(Len(sc.pcs[E.pc].pts)), {"C05", "C03"}, "simple-iterator-count-differs-from-record-count")
                   /\ res' = E.res /\ UNCHANGED <<sc, file>>
@@ -154,6 +161,9 @@ T_ROpen == /\ IsEv("r_open") /\ RNoPanic
            /\ res' = E.res /\ FileUnch
 
 OptEq(a, b) == a = b
+B01(b) == IF b THEN 1 ELSE 0
+HasAllNames(proto, names) == \A nm \in names : HasName(proto, nm)
+NegF64(x) == <<x[1], x[2], x[3], (x[4] + 32768) % 65536>>
 \* expected limits: the caller's complete override as given, None when reset, otherwise the declared type range
 ExpIntensityLimits(pc) ==
     IF WasSet(pc.meta, "intensity_limits") THEN LastSet(pc.meta, "intensity_limits")
@@ -217,6 +227,20 @@ RPcOk(rp, pc, pcnode) ==
     /\ ChkP(IsSome(rp.cartesian_bounds) = HasName(pc.proto, "cartesianX"), {"C14"}, "cartesian-bounds-presence")
     /\ ChkP(IsSome(rp.spherical_bounds) = HasName(pc.proto, "sphericalAzimuth"), {"C14"}, "spherical-bounds-presence")
     /\ ChkP(rp.index_bounds = ExpIdx(pc), {"C14"}, "index-bounds")
+    \* convenience accessors of the descriptor: has_* follow the prototype, get_cartesian_bounds prefers the stored
+    \* Cartesian bounds and otherwise spans +-rangeMaximum on every axis
+    /\ ChkP(rp.has = [cart |-> B01(HasAllNames(pc.proto, {"cartesianX", "cartesianY", "cartesianZ"})),
+                      sph |-> B01(HasAllNames(pc.proto, {"sphericalRange", "sphericalAzimuth", "sphericalElevation"})),
+                      color |-> B01(HasAllNames(pc.proto, {"colorRed", "colorGreen", "colorBlue"})),
+                      intensity |-> B01(HasName(pc.proto, "intensity")),
+                      rowcol |-> B01(HasAllNames(pc.proto, {"rowIndex", "columnIndex"})),
+                      ret |-> B01(HasAllNames(pc.proto, {"returnCount", "returnIndex"})),
+                      ts |-> B01(HasName(pc.proto, "timeStamp"))], {"C04"}, "has-accessors")
+    /\ ChkP(IF IsSome(rp.cartesian_bounds) THEN rp.gcb = rp.cartesian_bounds
+            ELSE IF IsSome(rp.spherical_bounds) /\ IsSome(rp.spherical_bounds.some.rmax)
+                 THEN LET r == rp.spherical_bounds.some.rmax.some  n == NegF64(r)
+                      IN BoundsEq(rp.gcb, SomeV([xmin |-> SomeV(n), xmax |-> SomeV(r), ymin |-> SomeV(n), ymax |-> SomeV(r), zmin |-> SomeV(n), zmax |-> SomeV(r)]), CartFields)
+                 ELSE rp.gcb = NoneV, {"C14"}, "get_cartesian_bounds")
     /\ HasReals(pc) =>
           /\ ChkP(BoundsEq(rp.cartesian_bounds, ExpCart(pc), CartFields), {"C14"}, "cartesian-bounds")
           /\ ChkP(BoundsEq(rp.spherical_bounds, ExpSph(pc), SphFields), {"C14"}, "spherical-bounds")
@@ -276,7 +300,7 @@ T_RXml == /\ IsEv("r_xml") /\ RNoPanic
           /\ ChkP(IsOk(E.res) /\ E.res.ok = XmlBytes(file.img, file.L), {"C04"}, "xml-returned-differs-from-file")
           /\ res' = E.res /\ FileUnch
 
-TNext == \/ T_Reset \/ T_Panic \/ T_Scene \/ T_RSimpleCount \/ T_WNew \/ T_WCoord \/ T_WCreation \/ T_WExt \/ T_WBlob
+TNext == \/ T_Reset \/ T_Panic \/ T_Scene \/ T_RHints \/ T_RSimpleCount \/ T_WNew \/ T_WCoord \/ T_WCreation \/ T_WExt \/ T_WBlob
          \/ T_PcNew \/ T_PcSet \/ T_PcPoints \/ T_PcPoint \/ T_PcFinalize \/ T_PcDrop
          \/ T_ImNew \/ T_ImSet \/ T_ImAdd \/ T_ImFinalize \/ T_ImDrop
          \/ T_WFinalize \/ T_Final
